@@ -90,6 +90,14 @@ def run(ctx: common.Ctx):
             tasks.append(dict(base, faults=[[kind, site, 0]]))
             if kind in ("dup_send", "redirect_send", "redirect_recv", "cycle") and spec["nranks"] > 2:
                 tasks.append(dict(base, faults=[[kind, site, 1]]))
+        # targeted pairs, one per message: both ends broken so that no rank sees an orphan locally
+        # (only verify_distributed_partition on the root can notice)
+        sends, recvs = G.comm_ops(spec)
+        for k, sd in enumerate(sends):
+            for j, rv in enumerate(recvs):
+                if (sd["rank"], sd["dst"], sd["tag"]) == (rv["src"], rv["rank"], rv["tag"]):
+                    tasks.append(dict(base, faults=[["recv_from_nowhere", j, 0], ["drop_send", k, 0]]))
+                    tasks.append(dict(base, faults=[["send_to_nowhere", k, 0], ["drop_recv", j, 0]]))
     # seeded pairs
     for _ in range(npairs if accepted else 0):
         base = rng.choice(accepted)
